@@ -1375,6 +1375,75 @@ def comp_eqshape(prop, tier, comp, work):
 
 
 # --------------------------------------------------------------------------------------------
+# R-PAIR (sibling agreement inside one function): a local named for one operand side (a_*, lhs_*, left_* /
+# b_*, rhs_*, right_*) is computed from identifiers of its own side; one that mentions only the OTHER side's
+# identifiers is the copy-paste slip "b_dst_shape = f(a_src_shape)".  Single-letter stage names (a, b, c) are not sides.
+# Scope: the anchor files of the property (read from properties.jsonl).
+# --------------------------------------------------------------------------------------------
+SIDE_A, SIDE_B = {"a", "lhs", "left"}, {"b", "rhs", "right"}
+
+def _sides(txt):
+    ha = hb = False
+    for t in re.findall(r"[%$]?[A-Za-z_][A-Za-z0-9_]*", txt):
+        comps = t.lstrip("%$").split("_")
+        if any(c in SIDE_A for c in comps):
+            ha = True
+        if any(c in SIDE_B for c in comps):
+            hb = True
+    return ha, hb
+
+def anchor_files(prop):
+    for l in open(os.path.join(VERIF, "properties.jsonl")):
+        pr = json.loads(l)
+        if pr["id"] == prop:
+            return pr["anchors"]["files"]
+    return []
+
+def rule_pair(rows, prop):
+    tbl = load_table("pair_tables.json")
+    anchors = anchor_files(prop)
+    findings, samples, n = [], [], 0
+    for r in rows:
+        if "fn" not in r:
+            continue
+        rf = relfile(r["file"])
+        if not any(rf == a or (a.endswith("/") and rf.startswith(a)) for a in anchors):
+            continue
+        for f in r["facts"]:
+            if f["k"] != "local" or not f["b"]:
+                continue
+            comps = f["a"].split("_")
+            if len(comps) < 2:
+                continue
+            na = any(c in SIDE_A for c in comps); nb = any(c in SIDE_B for c in comps)
+            if na == nb:
+                continue
+            ha, hb = _sides(f["b"])
+            if not (ha or hb):
+                continue
+            n += 1
+            bad = (nb and ha and not hb) or (na and hb and not ha)
+            key = "%s:%s:%s" % (rf, r["fn"].split("::")[-1].split("(lambda")[0] or "lambda", f["a"])
+            if bad and key not in tbl["exempt"]:
+                findings.append(finding("R-PAIR", prop, r, "%s = %s" % (f["a"], f["b"]), "local '%s' is named for one operand side but is computed only from the other side's identifiers: %s" % (f["a"], f["b"])))
+            elif len(samples) < 3:
+                samples.append("R-PAIR %s: %s = %s" % (rf.split("/")[-1], f["a"], f["b"][:60]))
+    return findings, n, samples
+
+
+def comp_pair(prop, tier, comp, work):
+    t0 = time.time()
+    tu, n = gen_umbrella(["nmtools/array/view", "nmtools/array/index"], work, "umb_vi.cpp")
+    rows, err, cmd = run_nmlint(tu, filters=["include/nmtools/array/view/", "include/nmtools/array/index/"])
+    out = dict(broken=[], units=n, functions=len(rows), cmd=cmd)
+    if err:
+        out["broken"].append(err); return out
+    f, inst, samples = rule_pair(rows, prop)
+    out.update(findings=f, instances={"R-PAIR": inst}, evaluations=inst, distinct_nontrivial=inst - len(f), samples=samples, wall_s=round(time.time() - t0, 2))
+    return out
+
+
+# --------------------------------------------------------------------------------------------
 # driver
 # --------------------------------------------------------------------------------------------
 def run(prop, tier, spec, jobs=16):
@@ -1414,4 +1483,4 @@ def comp_fwd_array(prop, tier, comp, work):
     return out
 
 
-RULES = {"R-FWD.array": comp_fwd_array, "R-FWD.functional": comp_fwd_functional, "R-UFUNC": comp_ufunc, "R-KSIB": comp_ksib, "R-SIMD": comp_simd, "R-CONSTBRANCH": comp_constbranch, "R-TRAITPROV": comp_traitprov, "R-MAYBE-DIV": comp_maybe_div, "R-OWN": comp_own, "R-EVAL": comp_eval, "R-EQSHAPE": comp_eqshape}
+RULES = {"R-FWD.array": comp_fwd_array, "R-FWD.functional": comp_fwd_functional, "R-UFUNC": comp_ufunc, "R-KSIB": comp_ksib, "R-SIMD": comp_simd, "R-CONSTBRANCH": comp_constbranch, "R-TRAITPROV": comp_traitprov, "R-MAYBE-DIV": comp_maybe_div, "R-OWN": comp_own, "R-EVAL": comp_eval, "R-EQSHAPE": comp_eqshape, "R-PAIR": comp_pair}
